@@ -214,8 +214,11 @@ Definition unprotected (B : list thread) : list nat :=
    WMemo      a memo table, cache[k] := F k with F a function of the key (memo_isolation)
    WMonotone  counter / sampler / shutdown-flag state whose influence on later requests
               is the documented purpose of the helper
-   WPrivate   storage owned by one request by construction (its own key, its own object) *)
-Inductive wclass := WMemo | WMonotone | WPrivate.
+   WPrivate   storage owned by one request by construction (its own key, its own object)
+   WSync      an object of a type defined outside the package (or a package-level function
+              variable) that is documented / contracted safe for concurrent use; the entry
+              pins the constructor or function it is bound to *)
+Inductive wclass := WMemo | WMonotone | WPrivate | WSync.
 
 Fixpoint classified (cls : list (nat * wclass)) (x : nat) : bool :=
   match cls with [] => false | (y, _) :: r => Nat.eqb x y || classified r x end.
